@@ -46,10 +46,10 @@ func (round *round3) Start() *tss.Error {
 		cmtDeCmt := commitments.HashCommitDecommit{C: round.temp.cjs[j], D: r2msg.UnmarshalDeCommitment()}
 		ok, coordinates := cmtDeCmt.DeCommit()
 		if !ok {
-			return round.WrapError(errors.New("de-commitment verify failed"))
+			return round.WrapError(errors.New("de-commitment verify failed"), Pj)
 		}
 		if len(coordinates) != 2 {
-			return round.WrapError(errors.New("length of de-commitment should be 2"))
+			return round.WrapError(errors.New("length of de-commitment should be 2"), Pj)
 		}
 
 		Rj, err := crypto.NewECPoint(round.Params().EC(), coordinates[0], coordinates[1])
